@@ -73,6 +73,37 @@ def is_json_serializable(item: Any) -> bool:
     return json_serializable
 
 
+def _same_value_and_type(original: Any, restored: Any) -> bool:
+    """
+    Test if ``restored`` (an object decoded from JSON) equals ``original``, values and types,
+    recursively for lists and dictionaries.
+    """
+    if type(original) is not type(restored):
+        return False
+    if isinstance(original, dict):
+        return len(original) == len(restored) and all(
+            key in restored and _same_value_and_type(value, restored[key]) for key, value in original.items()
+        )
+    if isinstance(original, list):
+        return len(original) == len(restored) and all(_same_value_and_type(a, b) for a, b in zip(original, restored))
+    return bool(original == restored)
+
+
+def is_json_roundtrippable(item: Any) -> bool:
+    """
+    Test if an object can be stored as plain JSON and read back unchanged.
+    JSON turns tuples into lists, non-string dictionary keys into strings
+    and subclasses of float/int/str into the base type: such objects
+    are serializable but would be altered by saving and loading.
+
+    :param item: The object to be tested.
+    :return: True if ``json.loads(json.dumps(item))`` gives back the same object (values and types).
+    """
+    if not is_json_serializable(item):
+        return False
+    return _same_value_and_type(item, json.loads(json.dumps(item)))
+
+
 def data_to_json(data: dict[str, Any]) -> str:
     """
     Turn data (class parameters) into a JSON string for storing
@@ -87,8 +118,8 @@ def data_to_json(data: dict[str, Any]) -> str:
     # and turn them into byte-strings
     serializable_data = {}
     for data_key, data_item in data.items():
-        # See if object is JSON serializable
-        if is_json_serializable(data_item):
+        # See if object is JSON serializable (and not altered by the round trip)
+        if is_json_roundtrippable(data_item):
             # All good, store as it is
             serializable_data[data_key] = data_item
         else:
